@@ -349,9 +349,11 @@ PROPS["C16"] = {
     "technique": "differential property-based testing of compiler+VM against the evaluator on generated programs, final globals compared structurally (rapid)",
     "tests": [
         {"name": "TestProp", "quick": {"shards": 8, "checks": 4000}, "thorough": {"shards": 16, "checks": 40000}},
+        {"name": "TestAlias", "quick": {"shards": 8, "checks": 2500}, "thorough": {"shards": 16, "checks": 25000}},
     ],
     "rule": "cases: generated programs; programs = cases whose globals were compared. Non-trivial = compared program with a loop and a "
-            "composite value, or an unsupported construct that was rejected, or a run-time error both sides agree on; distinct by source text.",
+            "composite value, or an unsupported construct that was rejected, or a run-time error both sides agree on; for the alias "
+            "histories (TestAlias): compared program in which a value derived from another was later updated in place; distinct by source text.",
     "assumptions": ["hooks (build tag verif): Evaluator.VerifGlobals, VM.VerifGlobals(Compiler), read-only"],
 }
 
@@ -464,4 +466,4 @@ ENGINES = [
      "kind_free_text": "Go module with rapid v1.3.0: generators, mutators, reference models, recording platform; driven by /verif/check"},
 ]
 
-HOOK_COMMITS = ["764b122"]
+HOOK_COMMITS = ["764b122", "d65b1bc"]
